@@ -139,8 +139,9 @@ def mc_job(name, module, cfgs, props, export=True, strict=True, cap_q=None, cap_
                     elif module == "MC_Server" and not any(st["a"] == "heal" for st in steps):
                         steps += [{"a": "get_event"}] * 4
                     elif module == "MC_Transport":
-                        b_ = (mcfg.get("timeout_s", 2) * 1000) // 100 + 12
-                        steps += [{"a": "mark", "mark": "heal", "bound": b_}, {"a": "round", "dt": 100, "n": b_ + 2}]
+                        sdt = mcfg.get("step_dt", 100)
+                        b_ = (mcfg.get("timeout_s", 2) * 1000) // sdt + 12
+                        steps += [{"a": "mark", "mark": "heal", "bound": b_}, {"a": "round", "dt": sdt, "n": b_ + 2}]
                     cfg = dict(mcfg)
                     cfg["props"] = props
                     res["schedules"].append({"id": "%s-%d" % (cfgf, i), "cfg": cfg, "steps": steps, "model": True, "strict": strict})
@@ -672,7 +673,7 @@ PLANS = {
                      "payload lengths, tokens with 1..32 IPv4/IPv6 addresses, byte strings (valid encodings, truncations, byte replacements, "
                      "random) for decode-reencode-decode; all cases count as non-trivial, distinct = different step lists"),
     "C20": Plan("stack", "TraceTransportMon", ["C20"], [("stack", g_stack)],
-                mc=[mc_job("transport_glue", "MC_Transport", {"quick": ["MC_C20_q1.cfg"], "thorough": ["MC_C20_q1.cfg"]}, ["C20"], strict=False,
+                mc=[mc_job("transport_glue", "MC_Transport", {"quick": ["MC_C20_q1.cfg", "MC_C20_q2.cfg"], "thorough": ["MC_C20_q1.cfg", "MC_C20_q2.cfg"]}, ["C20"], strict=False,
                            cap_q=250, cap_t=5000)],
                 level="model_checking", assumptions=[
                     "TLC (trace monitor) and the observer module spec/TransportObs.tla are the oracle",
